@@ -1,4 +1,5 @@
 import NbioVerif.Lemmas.ReadPathMeasure
+import NbioVerif.Lemmas.FdTableInv
 import NbioVerif.Lemmas.ReadPathDgram
 import NbioVerif.Model.Gate
 /-! C02 Inbound delivery integrity (model level, `Model/ReadPath.lean`).
